@@ -9,7 +9,8 @@ From ZV Require Import Prelude GoSem Paging.
 From ZV.gen Require Import Consts.
 Open Scope Z_scope.
 
-Inductive item := IKnown (h : Z) | IUnknown | IGarbage.
+(* IKnown h sz: the hash of the momentum at height h, which takes sz bytes inside a BlocksMsg *)
+Inductive item := IKnown (h : Z) (sz : Z) | IUnknown | IGarbage.
 Inductive req :=
 | RStatus
 | RGetHashes (h : option Z) (amount : Z)
@@ -18,7 +19,8 @@ Inductive req :=
 | RNoReply (code : Z)        (* well-formed BlockHashes / Blocks / NewBlockHashes / NewBlock / Tx: handed to downloader, fetcher, pool *)
 | RUnknown (code : Z)
 | RUndecodable (code : Z).   (* payload is not the RLP form of that code's message *)
-Inductive outcome := OPanic | OErr (c : Z) | OHashes (l : list Z) | OBlocks (l : list Z) | ONoReply.
+(* OBlocks l bytes: the momentums (heights) of the reply and the sum of their encoded sizes *)
+Inductive outcome := OPanic | OErr (c : Z) | OHashes (l : list Z) | OBlocks (l : list Z) (bytes : Z) | ONoReply.
 
 Definition ErrOther : Z := 99. (* an error that is not an errResp (raw rlp error) *)
 
@@ -48,16 +50,22 @@ Definition hashes_from_hash (nilcheck : bool) (H : Z) (h : option Z) (amount : Z
 
 Definition clamp (limit x : Z) : Z := if limit <? x then limit else x.
 
-(* case GetBlocksMsg: gather blocks until the fetch limit is reached *)
-Fixpoint gather_blocks (H : Z) (items : list item) (n : Z) (acc : list Z) : outcome :=
+(* blocksMsgByteLimit = ProtocolMaxMsgSize - 16 (unexported constant of protocol/handler.go; fix 580df5c) *)
+Definition blocks_byte_limit : Z := ProtocolMaxMsgSize - 16.
+
+(* case GetBlocksMsg: gather blocks until the fetch limit or (bytecap) the byte limit is reached *)
+Fixpoint gather_blocks (bytecap : bool) (H : Z) (items : list item) (n bytes : Z) (acc : list Z) : outcome :=
   match items with
-  | [] => OBlocks (rev acc)
+  | [] => OBlocks (rev acc) bytes
   | IGarbage :: _ => OErr ErrDecode
-  | IUnknown :: r => gather_blocks H r n acc
-  | IKnown h :: r =>
+  | IUnknown :: r => gather_blocks bytecap H r n bytes acc
+  | IKnown h sz :: r =>
       match by_height H h with
-      | None => gather_blocks H r n acc
-      | Some x => if MaxBlockFetch <=? n + 1 then OBlocks (rev (x :: acc)) else gather_blocks H r (n + 1) (x :: acc)
+      | None => gather_blocks bytecap H r n bytes acc
+      | Some x =>
+          if bytecap && (blocks_byte_limit <? bytes + sz) then OBlocks (rev acc) bytes
+          else if MaxBlockFetch <=? n + 1 then OBlocks (rev (x :: acc)) (bytes + sz)
+          else gather_blocks bytecap H r (n + 1) (bytes + sz) (x :: acc)
       end
   end.
 
@@ -68,8 +76,9 @@ Definition undecodable (code : Z) : outcome :=
   else if (code =? GetBlocksMsg) || (code =? BlocksMsg) then OErr ErrOther
   else OErr ErrInvalidMsgCode.
 
-(* nilcheck: fix of GetMomentumsByHash; shrink: fix of the recomputed amount in GetBlockHashesFromNumberMsg *)
-Definition handle_gen (nilcheck shrink : bool) (H size : Z) (r : req) : outcome :=
+(* nilcheck: fix of GetMomentumsByHash; shrink: fix of the recomputed amount in GetBlockHashesFromNumberMsg;
+   bytecap: fix of the byte size of a BlocksMsg reply *)
+Definition handle_gen (nilcheck shrink bytecap : bool) (H size : Z) (r : req) : outcome :=
   if ProtocolMaxMsgSize <? size then OErr ErrMsgTooLarge else
   match r with
   | RStatus => OErr ErrExtraStatusMsg
@@ -89,12 +98,12 @@ Definition handle_gen (nilcheck shrink : bool) (H size : Z) (r : req) : outcome 
       else match hashes_from_hash nilcheck H (by_height H last) amount with
            | Ok l => OHashes (rev l) | Panic => OPanic
            end
-  | RGetBlocks items => gather_blocks H items 0 []
+  | RGetBlocks items => gather_blocks bytecap H items 0 0 []
   | RNoReply _ => ONoReply
   | RUnknown _ => OErr ErrInvalidMsgCode
   | RUndecodable code => undecodable code
   end.
-Definition handle := handle_gen true true.
+Definition handle := handle_gen true true true.
 
 (* peer.Handshake: checks on the first message of the remote side; -1 = established *)
 Definition handshake (code size : Z) (decodes genesis_ok network_ok version_ok : bool) : Z :=
@@ -107,7 +116,7 @@ Definition handshake (code size : Z) (decodes genesis_ok network_ok version_ok :
   else -1.
 
 (* requests as a peer can form them: numbers are uint64, a known hash names a momentum of the chain *)
-Definition wf_item (H : Z) (i : item) : Prop := match i with IKnown h => 1 <= h <= H | _ => True end.
+Definition wf_item (H : Z) (i : item) : Prop := match i with IKnown h sz => 1 <= h <= H /\ 0 <= sz | _ => True end.
 Definition wf_req (H : Z) (r : req) : Prop :=
   match r with
   | RGetHashes h amount => in_u64 amount /\ match h with Some ht => 1 <= ht <= H | None => True end
